@@ -147,6 +147,14 @@ func runOrigin(c J, emit func(J)) {
 					ev["lines"] = []interface{}{}
 				}
 				ev["nlines"] = len(lines)
+				// the lines on both sides of every change of the index width
+				probes := []interface{}{}
+				for _, k := range []int{0, 1, 16, 17, 166, 167, 1666, 1667, 16666, 16667} {
+					if k < len(lines) {
+						probes = append(probes, J{"k": k, "line": lines[k]})
+					}
+				}
+				ev["probes"] = probes
 				if len(lines) > 0 {
 					ev["lastline"] = lines[len(lines)-1]
 				} else {
@@ -181,6 +189,7 @@ func runOrigin(c J, emit func(J)) {
 					ev[k] = -1
 				}
 				ev["full"], ev["lines"], ev["lastline"] = false, []interface{}{}, J{"idx": 0, "groups": []int{}}
+				ev["probes"] = []interface{}{}
 				ev["content"], ev["byteseq"], ev["fast"], ev["slow"] = false, false, "panic", "panic"
 			}
 			emit(ev)
@@ -289,13 +298,14 @@ func runFasta(c J, emit func(J)) {
 		if n >= 2 {
 			p := patternResidues(n, "acgt")
 			gb := seqio.GenBank{Fields: baseFields("GBF", gts.Linear), Table: gts.FeatureSlice{{Key: "source", Loc: gts.Range(0, n), Props: gts.Props{{"organism", "x"}}}}, Origin: seqio.NewOrigin(append([]byte(nil), p...))}
-			for _, sl := range []bool{false, true} {
+			// whole record, an inner slice, empty slices, the full-length slice, one-residue slices
+			for _, w := range [][]int{nil, {n / 3, n - n/4}, {n / 3, n / 3}, {0, 0}, {n, n}, {0, n}, {n - 1, n}, {0, 1}} {
 				var seq gts.Sequence = gb
 				want := p
 				region := []int{}
-				if sl {
-					a, b := n/3, n-n/4
-					if a >= b {
+				if w != nil {
+					a, b := w[0], w[1]
+					if a > b {
 						continue
 					}
 					seq = gts.Slice(gb, a, b)
